@@ -42,4 +42,13 @@ var plans = map[string]plan{
 			"property names are not string values in the sense of the quantifier",
 		},
 	},
+	"C10": {
+		Quick:    []stage{rapidStage(3_000)},
+		Thorough: []stage{rapidStage(150_000), fuzzStage("FuzzC10", 240)},
+		Rule: "cases are (legal-but-unusual document built by docgen that loads and passes Validate; router kind; hostile request; hostile response; option bit set; authentication behaviour; strict flag). Documents that do not validate are discarded (counted). non-trivial = the route was found, so that ValidateRequest, ValidateResponse and ConvertErrors actually ran on the case. distinct = FNV-64a of the canonical case JSON.",
+		Assume: []string{
+			"oracle: every call returns normally; a panic is attributed by its first kin-openapi frame; non-termination is a 20 s watchdog re-run alone with a 60 s limit",
+			"requests are built as *http.Request values the way net/http hands them to a handler (no raw socket)",
+		},
+	},
 }
